@@ -351,6 +351,10 @@ func TestVerifC07(t *testing.T) {
 			}
 		}
 	}
+	// ---------------- namespaces (c07n_test.go) ----------------
+	if only == "" || only == "N" {
+		c07PartN(t, s, res, &count, paramsA)
+	}
 	// ---------------- roles ----------------
 	if only == "" || only == "R" {
 		type role struct {
